@@ -352,8 +352,15 @@ def build_request(rllen, fields, body=b""):
     return b"\r\n".join(lines) + b"\r\n\r\n" + body
 
 
-def limit_record(ctx, cfgkw, rllen, fields, cuts_kind, rng, body=b""):
+PROXY_LINE = b"PROXY TCP4 1.2.3.4 5.6.7.8 1111 2222\r\n"
+
+
+def limit_record(ctx, cfgkw, rllen, fields, cuts_kind, rng, body=b"", proxy=False):
     data = build_request(rllen, fields, body)
+    plain = data
+    if proxy:
+        cfgkw = dict(cfgkw, proxy_protocol=True, proxy_allow_ips="*")
+        data = PROXY_LINE + data
     if cuts_kind == "whole":
         cuts = []
     elif cuts_kind == "bytes":
@@ -364,14 +371,14 @@ def limit_record(ctx, cfgkw, rllen, fields, cuts_kind, rng, body=b""):
         cuts = rand_cuts(rng, len(data))
     cfg = drv.make_cfg(**cfgkw)
     obs = drv.run(data, cuts, cfg=cfg, mode="read", source="sock" if cuts_kind == "8k" else "iter")
-    lens = [len(x) for x in data.split(b"\r\n\r\n")[0].split(b"\r\n")]
+    lens = [len(x) for x in plain.split(b"\r\n\r\n")[0].split(b"\r\n")]
     ev = {"e": "limit", "cfg": eff_limits(cfgkw.get("limit_request_line", 4094),
                                          cfgkw.get("limit_request_fields", 100),
                                          cfgkw.get("limit_request_field_size", 8190)),
           "rllen": lens[0], "nfields": len(lens) - 1, "maxfield": max(lens[1:] or [0]), "wellformed": True,
           "handed": len(obs["out"]) >= 1}
     meta = {"cfg": cfgkw, "rllen": lens[0], "fields": [[k, n] for k, n in fields][:8], "nfields": len(fields),
-            "cuts": cuts_kind, "exc": obs["exc"], "under": sum(1 for k, _ in fields if k == "under")}
+            "cuts": cuts_kind, "exc": obs["exc"], "under": sum(1 for k, _ in fields if k == "under"), "proxy": proxy}
     return ev, meta
 
 
@@ -405,13 +412,15 @@ def endless_record(cfgkw, phase, style, recv):
                      cfgkw.get("limit_request_field_size", 8190))
     head_bound = eff["fields"] * ((eff["fsize"] or 8190) + 2) + 4
     bound = max((eff["line"] or 8190) + 2, head_bound) + recv + 4
-    prefix = {"reqline": b"GET /", "headers": b"GET / HTTP/1.1\r\n",
+    if phase == "reqline_after_proxy":
+        cfgkw = dict(cfgkw, proxy_protocol=True, proxy_allow_ips="*")
+    prefix = {"reqline": b"GET /", "reqline_after_proxy": PROXY_LINE + b"GET /", "headers": b"GET / HTTP/1.1\r\n",
               "chunkline": b"POST / HTTP/1.1\r\nTransfer-Encoding: chunked\r\n\r\n1;",
               "trailers": b"POST / HTTP/1.1\r\nTransfer-Encoding: chunked\r\n\r\n0\r\n"}[phase]
     filler = b"a" if style == "long" else b"X-A: b\r\n"
     if phase in ("headers", "trailers") and style == "long":
         prefix += b"X-A: "
-    if phase in ("reqline", "chunkline"):
+    if phase in ("reqline", "reqline_after_proxy", "chunkline"):
         filler = b"a"
     src = Endless(prefix, filler, recv, 4 * bound)
     parser = RequestParser(drv.make_cfg(**cfgkw), src, ("127.0.0.1", 1))
@@ -473,6 +482,10 @@ def c12(ctx):
                 if ck == "bytes" and rl > 300:
                     continue
                 add(*limit_record(ctx, {"limit_request_line": L}, rl, [("plain", 12)], ck, rng))
+                if ck in ("whole", "rand") and (L == 0 or L >= 64):
+                    # the same request after a PROXY protocol preamble (first request of a connection);
+                    # the preamble line itself is read under the same limit, so only limits it fits in
+                    add(*limit_record(ctx, {"limit_request_line": L}, rl, [("plain", 12)], ck, rng, proxy=True))
     # field-count boundary, with and without fields that the default header_map drops
     for F in fieldss:
         eff = eff_limits(4094, F, 8190)["fields"]
@@ -522,7 +535,7 @@ def c12(ctx):
     if not ctx.quick:
         cfgs.append({})     # defaults
     for kw in cfgs:
-        for phase in ("reqline", "headers", "chunkline", "trailers"):
+        for phase in ("reqline", "reqline_after_proxy", "headers", "chunkline", "trailers"):
             for style in (("long", "many") if phase in ("headers", "trailers") else ("long",)):
                 for recv in ((1, 64, 8192) if kw else (8192,)):
                     add(*endless_record(kw, phase, style, recv))
@@ -536,7 +549,7 @@ def c12(ctx):
             which = []
             c = e["cfg"]
             if c["line"] and e["rllen"] > c["line"] + 2:
-                which.append("line")
+                which.append("line-after-proxy" if m.get("proxy") else "line")
             if e["nfields"] > c["fields"]:
                 which.append("fields" + ("-dropped" if m["under"] else ""))
             if c["fsize"] and e["maxfield"] > c["fsize"]:
@@ -570,3 +583,64 @@ def replay(ctx, data):   # noqa: F811
     if data["property"] == "C12":
         return replay_c12(ctx, data)
     return _replay_c01(ctx, data)
+
+
+# ---------------------------------------------------------------------------------------------
+# (C) spec -> code at behaviour level: TLC -simulate behaviours of HttpParse (deviations of the current
+# tree on) replayed into the real parser with the SAME segmentation (network reads at the same symbol
+# boundaries); the terminal observation must be the model's.
+
+def replay_behaviours(ctx, family, num, maxrecv=3):
+    cfg = model_cfg("HttpParse_sim_" + family, family=family, dev=AS_IS_DEV, maxrecv=maxrecv, invariants=[], liveness=False)
+    behs, _ = tlc.simulate_behaviours("HttpParse", cfg, num=num, depth=120, seed=ctx.seed, name="HttpParse_sim_" + family)
+    n = bad = 0
+    for beh in behs:
+        first, last = beh[0][1], beh[-1][1]
+        if last.get("pc") != "Done":
+            continue
+        ms = first["ms"]
+        cut = len(first["S"])
+        # network reads: every increase of `net` is one read of that many symbols
+        reads, prev = [], 0
+        for _, st in beh[1:]:
+            if st["net"] > prev:
+                reads.append(st["net"])
+                prev = st["net"]
+        ms_py = json.loads(json.dumps(ms))
+        for m in ms_py:
+            m["hdrs"] = list(m["hdrs"])
+        c = cz.concretize(ms_py, ctx.rng.randrange(8), cut)
+        if len(c.syms) != cut:
+            continue
+        bcuts = [c.spans[k][0] for k in reads if 0 < k < len(c.spans)]
+        obs = drv.run(bytes(c.data), bcuts, mode="read", source="iter")
+        got_out = [(cz.byte_to_sym_offset(c, r["start"]), cz.body_positions(c, r["body"])) for r in obs["out"]]
+        exp_out = [(o["start"], list(o["data"])) for o in last["out"]]
+        got_fin = obs["fin"].split(":")[0]
+        exp_fin = last["fin"]
+        n += 1
+        # on a body-level reject / eof the application may have been given less than the model yielded
+        same_out = len(got_out) == len(exp_out) and all(
+            g[0] == e[0] and (g[1] == e[1] or (exp_fin in ("bodyreject", "bodyeof") and e[1][:len(g[1])] == g[1]))
+            for g, e in zip(got_out, exp_out))
+        same_fin = got_fin == exp_fin or {got_fin, exp_fin} <= {"bodyreject", "crash", "reject"} \
+            or {got_fin, exp_fin} <= {"nomore", "bodyeof"}
+        if not (same_out and same_fin):
+            bad += 1
+            if bad <= 3:
+                ctx.note_drift("HttpParse behaviour not followed (%s): stream=%r reads=%s model=(%s,%s) code=(%s,%s)"
+                               % (family, bytes(c.data)[:80], reads, exp_out, exp_fin, got_out, got_fin))
+    ctx.coverage["replayed_behaviours"] = ctx.coverage.get("replayed_behaviours", 0) + n
+    return n, bad
+
+
+_c01_core = c01
+
+
+def c01_with_replay(ctx):
+    _c01_core(ctx)
+    for fam in ("chunks", "trunc", "pipeline"):
+        replay_behaviours(ctx, fam, 150 if ctx.quick else 1500)
+
+
+CHECKS["C01"] = c01_with_replay
